@@ -121,8 +121,10 @@ mod value;
 pub mod verif;
 
 fn raw_to_parse_error(map: &CodeMap, err: Error, unicode: bool) -> Box<Error> {
-    let (message, span) = err.raw();
-    Box::new(Error::from_loc(message, map.look_up_span(span), unicode))
+    match err.raw() {
+        Ok((message, span)) => Box::new(Error::from_loc(message, map.look_up_span(span), unicode)),
+        Err(err) => Box::new(err),
+    }
 }
 
 pub fn parse_stylesheet<P: AsRef<Path>>(
